@@ -8,6 +8,7 @@ import (
 	"strconv"
 	"strings"
 	"sync"
+	"sync/atomic"
 	"testing"
 	"time"
 
@@ -436,6 +437,155 @@ func TestC09CloseFailures(t *testing.T) {
 			}
 		}
 		col.Case(ran, canon, canon, fmt.Sprintf("provider-first=%v", providerFirst))
+		if f != nil {
+			if isKnown(f) {
+				col.Excluded()
+				return
+			}
+			rt.Fatalf("VIOLATION %s\n%s", f, canon)
+		}
+	})
+}
+
+// ---- a Close method that closes an owner while somebody else closes that owner ----
+
+// TestC09CloseFromClose: a scope is being closed on one goroutine; the Close method of
+// one of its instances calls Close on the parent scope or on the provider (a session that
+// ends the application); meanwhile another goroutine closes that same parent / provider.
+// The owner's Close waits for the scope, the instance's call waits for the owner: unless
+// one of them gives way nobody ever returns.
+func TestC09CloseFromClose(t *testing.T) {
+	col := evid.New("C09", "close-of-an-owner-from-inside-a-close", "configurations biased to disposable services; a scope tree (depth<=3) in which services were resolved; one scope C with a disposable instance of its own is picked, and an owner O of it (an ancestor scope or the provider); goroutine 2 closes C and, inside the Close() of C's first instance, waits until goroutine 1 has called O.Close() and has been running for 30 ms (it is then waiting for C), then calls O.Close() itself; oracle: both Close calls and the call made from inside the Close method return within 10 s (no deadlock), without panicking, and in the end - after the provider is closed - every instance has received exactly one Close call; non-trivial = the instance's Close method made its call while the owner's Close was waiting")
+	defer col.Flush()
+	rapid.Check(t, func(rt *rapid.T) {
+		cfg := kit.GenConfig(rt, dispOpts())
+		x, err := startRun(cfg, nil)
+		if err != nil {
+			rt.Fatal(err)
+		}
+		if x.Build.Err != nil || x.Build.Panic != nil {
+			col.Case(false, cfg.String(), nil, "build-failed(not judged here)")
+			return
+		}
+		x.genHistory(rt, histOpts{MaxSteps: 14, MaxDepth: 3, CtxKinds: []int{0, 1}, NoCollEdits: true, NoRebuild: true, NoProvClose: true})
+		if ids := noVoid(identPool(x.M, false)); len(ids) > 0 {
+			for _, tag := range x.R.LiveScopes() {
+				if tag != 0 {
+					x.R.Resolve(tag, rapid.SampledFrom(ids).Draw(rt, "warm"))
+					x.R.Resolve(tag, rapid.SampledFrom(ids).Draw(rt, "warm2"))
+				}
+			}
+		}
+		// scopes that own a disposable instance
+		owns := map[int]bool{}
+		for _, e := range x.W.AllEntries() {
+			if e.Inv != nil && e.Inv.Outcome == 1 && kit.IsDisposable(e.Impl) && e.ScopeTag > 0 && x.M.Regs[e.Reg].Life != kit.Singleton {
+				if rec := x.R.ScopeRecOf(e.ScopeTag); rec != nil && rec.Created && rec.S != nil && rec.CloseBeg == 0 {
+					owns[e.ScopeTag] = true
+				}
+			}
+		}
+		if len(owns) == 0 {
+			col.Case(false, x.describe(), nil, "no-scope-owns-a-disposable")
+			x.R.CloseProvider()
+			return
+		}
+		ctag := rapid.SampledFrom(kit.SortedInts(keysOf(owns))).Draw(rt, "scope")
+		anc := append(x.R.Ancestors(ctag), 0) // ctag itself first, the provider (0) last
+		otag := rapid.SampledFrom(anc[1:]).Draw(rt, "owner")
+		closeOf := func(tag int) func() error {
+			if tag == 0 {
+				return x.R.P.Close
+			}
+			return x.R.ScopeRecOf(tag).S.Close
+		}
+		var g2 atomic.Int64
+		inClose := make(chan struct{})
+		goOn := make(chan struct{})
+		innerDone := make(chan struct{})
+		var once sync.Once
+		var innerPanic any
+		fired := false
+		x.W.InClose = func(e *kit.Entry) {
+			if kit.Goid() != g2.Load() || e.ScopeTag != ctag {
+				return
+			}
+			once.Do(func() {
+				fired = true
+				close(inClose)
+				<-goOn
+				defer close(innerDone)
+				defer func() { innerPanic = recover() }()
+				_ = closeOf(otag)()
+			})
+		}
+		run := func(fn func() error, goid *atomic.Int64) (chan struct{}, *any) {
+			done := make(chan struct{})
+			var pv any
+			go func() {
+				defer close(done)
+				defer func() { pv = recover() }()
+				if goid != nil {
+					goid.Store(kit.Goid())
+				}
+				_ = fn()
+			}()
+			return done, &pv
+		}
+		d2, p2 := run(closeOf(ctag), &g2)
+		select {
+		case <-inClose:
+		case <-d2:
+		case <-time.After(10 * time.Second):
+		}
+		d1, p1 := run(closeOf(otag), nil)
+		select {
+		case <-d1:
+		case <-time.After(30 * time.Millisecond):
+		}
+		close(goOn)
+		canon := fmt.Sprintf("%s\ngoroutine 2 closes s%d; the Close() of its first instance calls Close on s%d (0 = the provider) while goroutine 1 is closing s%d", x.describe(), ctag, otag, otag)
+		var f *Failure
+		for _, w := range []struct {
+			what string
+			done chan struct{}
+			pv   *any
+		}{{fmt.Sprintf("Close of s%d (goroutine 2)", ctag), d2, p2}, {fmt.Sprintf("Close of s%d (goroutine 1)", otag), d1, p1}} {
+			if f != nil {
+				break
+			}
+			if !kit.WaitOrTimeout(w.done, 10*time.Second) {
+				f = fail("C09", "no-hang", "close-of-an-owner-from-inside-a-close", "%s has not returned after 10 s", w.what)
+			} else if *w.pv != nil {
+				f = fail("C09", "no-panic", "close-of-an-owner-from-inside-a-close", "%s panicked: %v", w.what, *w.pv)
+			}
+		}
+		if f == nil && fired {
+			if !kit.WaitOrTimeout(innerDone, 10*time.Second) {
+				f = fail("C09", "no-hang", "close-of-an-owner-from-inside-a-close/inner", "the Close call made from inside the instance's Close() has not returned after 10 s")
+			} else if innerPanic != nil {
+				f = fail("C09", "no-panic", "close-of-an-owner-from-inside-a-close/inner", "the Close call made from inside the instance's Close() panicked: %v", innerPanic)
+			}
+		}
+		x.W.InClose = nil
+		if f == nil {
+			pd, pp := run(x.R.P.Close, nil)
+			if !kit.WaitOrTimeout(pd, 10*time.Second) {
+				f = fail("C09", "no-hang", "close-of-an-owner-from-inside-a-close/provider", "the final Close of the provider has not returned after 10 s")
+			} else if *pp != nil {
+				f = fail("C09", "no-panic", "close-of-an-owner-from-inside-a-close/provider", "the final Close of the provider panicked: %v", *pp)
+			}
+			x.R.PClosed = true
+		}
+		if f == nil {
+			for _, e := range x.W.AllEntries() {
+				if e.Inv != nil && e.Inv.Outcome == 1 && kit.IsDisposable(e.Impl) && e.CloseCount() != 1 {
+					f = fail("C09", "lifetime-rules", "close-of-an-owner-from-inside-a-close/close-count", "%v received %d Close calls after everything was closed, want 1", e, e.CloseCount())
+					break
+				}
+			}
+		}
+		col.Case(fired, canon, canon, fmt.Sprintf("owner-is-provider=%v", otag == 0))
 		if f != nil {
 			if isKnown(f) {
 				col.Excluded()
